@@ -411,6 +411,7 @@ def check_case(ctx, case, variant, line, mres, cres, qmeta, stats, phase):
     madd, mouts, mfault = parse_result(mres)
     cadd, couts, cfault = parse_result(cres)
     n = len(case.entries)
+    cur = {"sig": None}
 
     def viol(kind, what, sig=None):
         if sig is None:
@@ -430,7 +431,6 @@ def check_case(ctx, case, variant, line, mres, cres, qmeta, stats, phase):
     if cadd != exp_add or madd != exp_add:
         viol("add", "jls_tmap_add return codes: implementation %s model %s expected %s" % (cadd, madd, exp_add))
     produced = []
-    cur = {"sig": None}
     strict_t = all(case.y[i] < case.y[i + 1] for i in range(n - 1))
     nondecr_t = all(case.y[i] <= case.y[i + 1] for i in range(n - 1))
     # faults
